@@ -174,6 +174,16 @@ func runC09(c *Ctx) {
 				if cls, known := calendarUnits[u]; !known || (x.kind == "time" && cls <= 3) {
 					c.Law(res.kind == "", "C09/unsupported-unit", "a non-temporal or unsupported unit is an error", in, out)
 				}
+				// an amount in a unit finer than the value's precision that is less than one unit of that
+				// precision changes nothing: the result is the operand, with nothing hidden below the precision
+				if cls, known := calendarUnits[u]; known && res.kind != "" && cls >= 4 && cls > precRank(x.layout) && precRank(x.layout) >= 3 {
+					perUnit := map[int]float64{4: 3600, 5: 60, 6: 1, 7: 0.001}[cls]                   // seconds per unit
+					precSecs := map[int]float64{3: 86400, 4: 3600, 5: 60, 7: 0.001}[precRank(x.layout)] // seconds per unit of the precision
+					amt, _ := d.Abs().Float64()
+					if amt*perUnit < precSecs*0.999 {
+						c.Law(res.t.Equal(x.t), "C09/finer-unit-truncates", "an amount finer than the value's precision and smaller than one unit of it leaves the value unchanged (nothing is kept below the precision)", in, out+" from "+wallOf(x.t))
+					}
+				}
 				// years and months: the month count moves by exactly the amount, the day is kept or clamped
 				if cls, known := calendarUnits[u]; known && cls <= 1 && res.kind != "" && precRank(x.layout) >= 3 && d.Equal(d.Truncate(0)) {
 					k := d.IntPart()
